@@ -187,6 +187,12 @@ impl DifficultyValues {
         // The first hit object has no difficulty object
         n_diff_objects = n_diff_objects.saturating_sub(1);
 
+        // Once all hits are passed, the drum rolls and swells after the last
+        // hit are passed as well
+        if take >= map.hit_objects.iter().filter(|h| h.is_circle()).count() {
+            n_diff_objects = diff_objects.objects.len();
+        }
+
         let mut skills = TaikoSkills::new(great_hit_window, map.is_convert);
 
         for hit_object in diff_objects.iter().take(n_diff_objects) {
